@@ -23,6 +23,10 @@ type GroupSpec struct {
 	Files   []string   `json:"files"`
 	Entries []EntryCfg `json:"entries"`
 	Models  []string   `json:"models,omitempty"` // optional model tags enabled for this group
+	// NoNative: the harness depends on environment stubs that exist only under the engine (model
+	// certificates, model QUIC connections): a counterexample cannot be replayed against the native
+	// build and is confirmed by deterministic re-execution of the real SSA along the recorded path.
+	NoNative bool `json:"no_native,omitempty"`
 }
 
 type PropSpec struct {
@@ -337,6 +341,33 @@ func cmdCheck(args []string) int {
 			continue
 		}
 		path, out := doReplay(vr)
+		if strings.HasPrefix(out, "violated") {
+			// the native run stops at the first failed assertion; it confirms the counterexample only if
+			// that assertion is one the solver refuted in this entry (not, say, a set-up assertion that
+			// fails natively because an engine-only stub is missing)
+			nl := strings.TrimPrefix(out, "violated label=")
+			ok := false
+			for _, o := range fresh {
+				if o.v.Entry == vr.v.Entry && strings.TrimPrefix(o.v.Label, "assert:") == nl {
+					ok = true
+				}
+			}
+			if !ok {
+				out = "other-" + out
+			}
+		}
+		if vr.oc.group.NoNative {
+			out = "not-applicable (engine-only environment stubs)"
+			if vr.oc.reexecute(vr.v) {
+				perKeyConfirmed[key]++
+				confirmed++
+				exit = 1
+				vioLines = append(vioLines, fmt.Sprintf("VIOLATION property=%s replay=%s", prop, path))
+				fmt.Printf("  violation %s at %s: %s [native: %s; re-executed along the recorded path: reproduced]\n", vr.v.Label, vr.v.Site, vr.v.Msg, out)
+				sampleViolations = append(sampleViolations, map[string]interface{}{"label": vr.v.Label, "site": vr.v.Site, "native": out, "replay": path})
+				continue
+			}
+		}
 		switch {
 		case strings.HasPrefix(out, "violated") || strings.HasPrefix(out, "panic") || out == "skipped":
 			perKeyConfirmed[key]++
